@@ -16,13 +16,14 @@ from vlib import dec, enc
 TOL_BE = 1e-8        # normal-equation backward error (property text)
 TOL_DS = 1e-6        # dense vs sparse, when cond(H) <= 1e8 (property text)
 COND_MAX = 1e8
-TOL_DPHI = 1e-6      # dphi vs exact derivative, same conditioning regime
+TOL_DPHI = 1e-6      # dphi vs exact derivative, when cond(H) and cond(D^-1 H D^-1) <= 1e8 (the latter governs D dx)
 TOL_CN = 1e-13       # colwise_norm relative error against the exact value
 ULP_CN = 16.0        # model vs implementation colwise_norm, per entry
+GRAD_CANCEL = 100.0  # |J|^T|r| / |J^T r| above this (J^T r loses >= 2 digits to cancellation): r nearly orthogonal to range(J)
 
 REPLY = ['nonfinite', 'be_ldlt_dense', 'be_ldlt_sparse', 'be_tr_dense', 'be_tr_sparse', 'descent_excess', 'lambda_flag',
          'colnorm_err', 'dense_sparse_ldlt', 'dense_sparse_tr', 'cond_ldlt', 'cond_tr', 'dphi_err_dense', 'dphi_err_sparse',
-         'forward_err', 'tr_ne_ldlt_flag', 'dphi_exact', 'zero_step_flag']
+         'forward_err', 'tr_ne_ldlt_flag', 'dphi_exact', 'zero_step_flag', 'cond_scaled', 'grad_cancellation', 'be_data_relative']
 
 
 def optim_spec(part):
@@ -90,7 +91,6 @@ def ulp_diff(a, b):
 def judge(l, v):
     """list of (check, storage/function, err, tol, what) failures of one audited line"""
     bad = []
-    st = l.strata()
     if v[0] != 0:
         return [('nonfinite', 'any', None, None, 'non-finite output of solve_linear_ldlt / solve_trust_region / colwise_norm')]
     names = [('solve_linear_ldlt', 'dense'), ('solve_linear_ldlt', 'sparse'), ('solve_trust_region', 'dense'), ('solve_trust_region', 'sparse')]
@@ -107,7 +107,7 @@ def judge(l, v):
         bad.append(('dense_vs_sparse', 'solve_linear_ldlt', v[8], TOL_DS, f'dense and sparse J give different dx although cond(H)={v[10]:.3g} <= 1e8'))
     if v[11] <= COND_MAX and not (v[9] <= TOL_DS):
         bad.append(('dense_vs_sparse', 'solve_trust_region', v[9], TOL_DS, f'dense and sparse J give different dx although cond(H)={v[11]:.3g} <= 1e8'))
-    if v[10] <= COND_MAX:
+    if v[10] <= COND_MAX and v[18] <= COND_MAX:
         if not (v[12] <= TOL_DPHI):
             bad.append(('dphi', 'solve_linear_ldlt/dense', v[12], TOL_DPHI, 'dphi differs from d/dlambda |D dx(lambda)| of the exact solution'))
         if not (v[13] <= TOL_DPHI):
@@ -119,19 +119,32 @@ def judge(l, v):
     return bad
 
 
+def region(v):
+    """input region of an audited line (identifies a finding): cancellation in the gradient J^T r"""
+    if v[0] != 0:
+        return 'nonfinite'
+    return 'gradient_cancellation' if v[19] > GRAD_CANCEL else 'generic'
+
+
 class C10:
     id = 'C10'
     props_files = ['SmoothProps/C10.lean']
     props_module = 'SmoothProps.C10'
     lean_targets = ['SmoothProps.C10']
     rule = ('harness/optim.cpp PART 0: J kind (full, rankdef, zerocol, dupcol, wide, illscaled, sparse, tiny, dyadic, zeroJ) x '
-            'r kind (rand, zero, consistent, big, tinyr) x d kind (clamp(colnorm), log-uniform 1e-3..1e3, ones) x sizes 1..40 x '
+            'r kind (rand, zero, consistent, big, tinyr, near_orth) x d kind (clamp(colnorm), log-uniform 1e-3..1e3, ones) x sizes 1..40 x '
             'Delta, lambda log-uniform 1e-6..1e6; every line audited in exact arithmetic (driver op opt_tr); '
             'distinct_nontrivial = distinct lines with J != 0 and r != 0')
     assumptions = ['Eigen::LDLT and Eigen::SimplicialLDLT are not modelled: their contract (normal equations to 1e-8 backward error) '
                    'is audited on sampled inputs in exact arithmetic, not proved',
                    'IEEE rounding of colwise_norm / lambda = 1/Delta is compared with the executable model, not proved',
-                   'cond(H) is the infinity-norm condition number (>= the 2-norm one for symmetric H) computed in 320-bit fixed point']
+                   'cond(H) is the infinity-norm condition number (>= the 2-norm one for symmetric H) computed in 320-bit fixed point',
+                   'the property text gives no tolerance for dphi: 1e-6 relative is applied when cond(H) and cond(D^-1 H D^-1) are <= 1e8 '
+                   '(the accuracy of D dx, hence of dphi, is governed by the diagonally scaled matrix)']
+
+    def prebuild(self):
+        """build the harness binary (called by tools/prebuild.py during setup)"""
+        return vlib.build_harnesses([optim_spec(0)])
 
     # ------------------------------------------------------------------ generation
     def gen(self, ctx, n, seed=None):
@@ -156,6 +169,7 @@ class C10:
         sig = set()
         cond_hist = {}
         n_regime = 0
+        n_regime_dphi = 0
         for l, rep in zip(lines, reps):
             if rep.startswith('ERR'):
                 raise vlib.MachineryError(f'audit op failed: {rep} on {l.raw[:120]}')
@@ -174,14 +188,17 @@ class C10:
             if v[10] <= COND_MAX:
                 n_regime += 1
                 worst_regime['dense_sparse'] = max(worst_regime['dense_sparse'], v[8])
-                worst_regime['dphi'] = max(worst_regime['dphi'], v[12], v[13])
+                if v[18] <= COND_MAX:
+                    n_regime_dphi += 1
+                    worst_regime['dphi'] = max(worst_regime['dphi'], v[12], v[13])
             if any(dec(w, 'f64') != 0 for w in l.J()) and any(dec(w, 'f64') != 0 for w in l.r()):
                 sig.add(tuple(l.ins))
             if len(samples) < 8 and len(sig) % 37 == 1:
                 samples.append({'tag': l.tag, 'm': l.m, 'n': l.n, 'request_head': l.raw[:160],
                                 'audit': {k: x for k, x in zip(REPLY, v)}})
             for (chk, where, err, tol, what) in judge(l, v):
-                findings.append({'property': 'C10', 'key': {'check': chk, 'where': where, 'J': st.get('J', l.kind)},
+                findings.append({'property': 'C10', 'key': {'check': chk, 'where': where, 'J': st.get('J', l.kind),
+                                                            'r': st.get('r', l.kind), 'region': region(v)},
                                  'err': err, 'tol': tol, 'what': what, 'line': l.raw, 'audit_reply': rep})
         # ---- T1: colwise_norm + clamp of the model vs the implementation
         creqs = [' '.join(['opt_colnorm', '-', 'f64'] + l.ins[:2] + l.J()) for l in lines]
@@ -216,23 +233,20 @@ class C10:
             st_res = self.selftest(lines)
         cov = {'evaluations': len(lines), 'distinct_nontrivial': len(sig), 'rule': self.rule, 'samples': samples,
                'strata_hits': strata, 'cond_histogram': cond_hist, 'audit_samples': len(lines),
-               'audit_worst': worst, 'samples_in_conditioning_regime': n_regime, 'worst_in_regime': worst_regime,
+               'audit_worst': worst, 'samples_in_conditioning_regime': n_regime, 'samples_in_dphi_regime': n_regime_dphi, 'worst_in_regime': worst_regime,
                't1_colnorm': {'n': t1_n, 'with_clamped_d': t1_d, 'worst_ulp': t1_worst, 'breaks': len(t1_breaks)},
                'oracle_selftest': st_res, 'traces_validated_against_impl': len(lines)}
         return {'coverage': cov, 'findings': findings, 'broken': broken}
 
     def selftest(self, lines):
-        """corrupt one coefficient of the implementation's dx by 1e-6 relative: the audit must notice"""
+        """corrupt the largest coefficient of the implementation's dx by 1e-4 relative: the audit must notice"""
         cand = [l for l in lines if l.n >= 1 and any(dec(w, 'f64') != 0 for w in l.outs[2 * l.n + 2:3 * l.n + 2])][:6]
         reqs, idx = [], []
         for l in cand:
             outs = list(l.outs)
             o = 2 * l.n + 2
-            for k in range(l.n):
-                x = dec(outs[o + k], 'f64')
-                if x != 0:
-                    outs[o + k] = enc(x * (1 + 1e-4), 'f64')
-                    break
+            k = max(range(l.n), key=lambda j: abs(dec(outs[o + j], 'f64')))   # the largest coefficient
+            outs[o + k] = enc(dec(outs[o + k], 'f64') * (1 + 1e-4), 'f64')
             reqs.append(' '.join(['opt_tr', l.kind, 'f64a'] + l.ins + outs))
         if not reqs:
             return {'n': 0}
@@ -248,7 +262,7 @@ class C10:
 
     # ------------------------------------------------------------------ entry points
     def explore(self, ctx):
-        n = 400 if ctx['tier'] == 'quick' else 6000
+        n = 1500 if ctx['tier'] == 'quick' else 20000
         return self.check_lines(ctx, self.gen(ctx, n * ctx.get('budget', 1)))
 
     def search(self, ctx, broken):
